@@ -47,6 +47,9 @@ P = {
  "C13": dict(level="other", tech="SSA structural rules (dominance of the alignment guards over the single table store, induction variable of Attach's loop, module-wide who-writes-the-table, lock-step induction variables and value identity in EaDump) plus abstract interpretation of the straight-line accessors (slot index term = shr4 of the address term; empty slot panics)",
    text="Routing is a statement about all Attach histories because the table can only be written by Attach's loop (who-may-write) with index range start>>4..end>>4 after both alignment tests, and every accessor selects the backend by a>>4 of the address it forwards unchanged. EaDump's count and placement follow from lock-step induction variables. The rules are sufficient conditions in the 'index derived from the accessed address' style; a correct chunked implementation would be reported as undecided (DESIGN.md section 6).",
    note="Trusted: go/ssa, absint. Behaviour of the attached backends themselves is C11's (memory.RAM).", ref="4 C13"),
+ "C11": dict(level="other", tech="abstract interpretation of CreateEmulator along its single feasible path with counted loops unrolled (constant bounds), Attach calls collected as site descriptors and replayed under Attach's structurally justified semantics into a per-page backing map; comparison with the LoROM page summaries; index terms of memory.RAM.Read/Write",
+   text="Agreement of two static descriptions: the emulator's page map (derived from the 485 Attach calls the code performs, every argument a compile-time constant) and the mapper's exhaustive page summary, compared on all 2048 pages; plus the index identity of the RAM backend. Byte-level read/write behaviour then follows from C13 (routing passes the full address to the selected backend).",
+   note="Trusted: go/ssa, absint single-path unrolling, C13/attach+route, C05 summaries. Holds for the array sizes declared in System (len(SRAM)>>15 is a Go constant).", ref="4 C11"),
 }
 reasons_pending = "no check is registered for this property at this commit (machinery not built yet); see DESIGN.md section 4 for the planned static rules"
 
